@@ -227,7 +227,7 @@ BOUNDS = dict(quick="n_train <= 2 (wrapper fallback <= 3), 1-2 query points, eve
                       "modelled), kernels that evaluate to exactly 0, real scikit-learn regressors, rounding")
 ASSUMPTIONS = [
     "scipy.stats.t / norm frozen distributions by contract (location-scale family recording df, loc, scale)",
-    "kernel = uninterpreted symmetric function in (0, 1] with k(x, x) = 1 (rbf in the replay)",
+    "kernel = uninterpreted symmetric function in [0, 1] with k(x, x) = 1 (0 = underflow for distant points; strictly positive for Nadaraya-Watson; rbf in the replay)",
     "products / quotients of two symbolic terms are abstracted by uninterpreted functions with sign axioms (over-approximation: "
     "the sign argument for the posterior scale goes through; counterexamples must replay)",
     "sqrt is an uninterpreted function with sqrt(x) >= 0 for x >= 0 and NaN for x < 0; nonlinear real arithmetic by z3",
